@@ -60,6 +60,23 @@ def variants(r, w, h):
 
 KINDS = ["gray8", "rgb8", "rgba8"]
 
+def skip_patterns(r, h, exhaustive):
+    """patterns over d (*it; ++it), D (*it; *it; ++it), s (++it: the row is skipped without being dereferenced), at most h letters"""
+    if exhaustive and h <= 5:
+        ps = ["".join("ds"[(m >> i) & 1] for i in range(h)) for m in range(1 << h)]
+    elif exhaustive is None:      # readers that seek to every row: a few patterns per file
+        return [p for p in dict.fromkeys(["s" * (h - 1) + "d", "".join("sd"[i % 2] for i in range(h)), "".join("dDs"[r.below(3)] for _ in range(h)), "s" * h]) if p]
+    else:
+        ps = ["d" * h, "d", "s" * (h - 1) + "d", "s" * h, "d" + "s" * (h - 1)]
+        ps += ["".join("d" if i % k == o else "s" for i in range(h)) for k in (2, 3) for o in range(k)]
+        ps += ["".join("ds"[r.below(2)] for _ in range(h)) for _ in range(3)]
+    n = 1 + r.below(h)
+    ps += ["".join("dDs"[r.below(3)] for _ in range(h)), "".join("dDs"[r.below(3)] for _ in range(n)), "s" * (n - 1) + "D"]
+    out = []
+    for p in ps:
+        if p and p not in out: out.append(p)
+    return out
+
 def gen_ops(ctx):
     r, ops, tags = ctx.rng, [], {}
     th = ctx.thorough()
@@ -78,6 +95,9 @@ def gen_ops(ctx):
                 for (x, y, dx, dy) in rs:                                     # EVERY sub-rectangle
                     add("crop %s %s %d %d %d %d %s" % (fmt, dst, x, y, dx, dy, hx))
                 add("paths %s %s %s" % (fmt, dst, hx))
+                # the scanline iterator with rows skipped: every d/s pattern for the stream readers (pnm), a selection for the seeking ones
+                for p in skip_patterns(r, h, True if fmt == "pnm" else None):
+                    add("skips %s %s %s %s" % (fmt, dst, p, hx))
                 if not dst.startswith("gray1"):
                     rs = rects(w, h); pick = [(0, 0, 0, 0), rs[0], rs[-1], r.choice(rs), r.choice(rs)]
                     if fmt == "bmprle": pick = [(0, 0, 0, 0)]      # rows the RLE reader leaves unwritten would show uninitialised memory
@@ -89,6 +109,10 @@ def gen_ops(ctx):
                 if h > 1: add("small %s %s %d %d 0 0 0 0 %s" % (fmt, dst, w, h - 1, hx))
                 if w > 2 and h > 1: add("small %s %s %d %d 1 1 %d %d %s" % (fmt, dst, w - 2, h - 1, w - 1, h - 1, hx))
                 if w > 1 and h > 2: add("small %s %s %d %d 0 0 %d %d %s" % (fmt, dst, w - 1, h - 2, w - 1, h - 1, hx))
+    for (w, h) in [(3, 9), (7, 12)] + ([(2, 31)] if th else []):      # taller files: skip patterns only
+        for name, fmt, dst, f in variants(r, w, h):
+            for p in skip_patterns(r, h, False):
+                ops.append("skips %s %s %s %s" % (fmt, dst, p, f.hex())); tags[name] = tags.get(name, 0) + 1
     if th:      # a sample of the sub-rectangles of larger images
         for (w, h) in [(9, 9), (8, 13), (17, 6), (33, 3)]:
             for name, fmt, dst, f in variants(r, w, h):
@@ -138,6 +162,11 @@ def gen_ext(ctx):
             ops.append("xpaths %s %d %d %s" % (head, w, h, hx))
             for _ in range(40 if th else 12):
                 x, y, dx, dy = r.choice(rs); ops.append("xcrop %s %d %d %d %d %d %d %s" % (head, w, h, x, y, dx, dy, hx))
+        if pix not in ("gray1", "gray4"):       # scanline iterator with skipped rows (byte pixels: the row buffer has the image's pixel layout)
+            for (w, h) in [(1, 1), (2, 3), (3, 5), (4, 4), (9, 9), (17, 5)] + ([(20, 18)] if th else []):
+                hx = src(w, h)
+                for p in skip_patterns(r, h, h <= 3):
+                    ops.append("xskips %s %d %d %s %s" % (head, w, h, p, hx))
         if pix in ("gray8", "rgb8", "rgba8"):
             for (w, h) in [(1, 1), (2, 1), (3, 2), (4, 4)]:
                 hx = src(w, h); rs = rects(w, h)
@@ -168,6 +197,8 @@ def specs():
 def nontrivial(op):
     w = op.split()
     if w[0] == "xcrop": return w[6:10] != ["0", "0", "0", "0"]
+    if w[0] == "skips": return "s" in w[3] or "D" in w[3]
+    if w[0] == "xskips": return "s" in w[6] or "D" in w[6]
     return w[0] != "crop" or w[3:7] != ["0", "0", "0", "0"]
 
 ASSUME = [
@@ -235,8 +266,8 @@ def run(ctx, ops=None):
     return vlib.finish(ctx, "proof", obligations, discharged,
         rule="files: %d variants (bmp 24/32 bottom-up, negative height, V4 header, OS/2 header, 1/4/8-bit palettes, RLE4/RLE8, 15/16-bit incl. bit fields; pnm P1..P6; targa raw/RLE x both origins x 24/32 x id field) "
              "for every w,h in 1..%d. crop: EVERY sub-rectangle of every file through file name, FILE* and std::istream, judged against the crop of the full read; paths: read_image, read_view (canary frame), any_image, "
-             "scanline reader, read_image_info; conv: read_and_convert_image / _view into gray8, rgb8, rgba8 against color_convert of the native read; small: read_view into a too small view. "
-             "non-trivial = every op except the default-settings read (distinct op lines counted)" % (len(variants(vlib.SplitMix64(1), 2, 2)), hi),
+             "scanline reader, read_image_info; skips: the scanline iterator driven by patterns of dereference / skip steps (pnm: every d/s pattern up to height 5; every other format incl. png / tiff / jpeg: first / last / every k-th / random subsets, double dereference, std::advance over runs), every row handed out judged against that row of read_image; conv: read_and_convert_image / _view into gray8, rgb8, rgba8 against color_convert of the native read; small: read_view into a too small view. "
+             "non-trivial = every op except the default-settings read and the skips patterns that dereference every row exactly once (distinct op lines counted)" % (len(variants(vlib.SplitMix64(1), 2, 2)), hi),
         samples=samples, distinct_nontrivial=distinct, assumptions=ASSUME, trusted_base=vlib.TRUSTED_BASE,
         extra={"ops_by_kind": kinds, "ops_by_variant": tags, "known_finding_inputs": ctx.cov.get("known_finding_inputs", {}),
                "exhaustive_domains": ["every sub-rectangle of every w x h image, w,h in 1..%d, for every file variant" % hi],
